@@ -357,11 +357,11 @@ func isStoreMethod(f *types.Func) bool {
 			}
 		}
 	case pkgMemory:
-		return n.Obj().Name() == "memoryStore"
+		return an.TName(n) == "memoryStore"
 	case pkgBadger:
-		return n.Obj().Name() == "badgerStore"
+		return an.TName(n) == "badgerStore"
 	case pkgPayment:
-		return n.Obj().Name() == "contractPayment"
+		return an.TName(n) == "contractPayment"
 	}
 	return false
 }
@@ -412,7 +412,7 @@ func sharedWrite(in ssa.Instruction) (ssa.Value, bool) {
 	case *ssa.MapUpdate:
 		addr = x.Map
 	case ssa.CallInstruction:
-		if b, ok := x.Common().Value.(*ssa.Builtin); ok && b.Name() == "delete" && len(x.Common().Args) > 0 {
+		if b, ok := x.Common().Value.(*ssa.Builtin); ok && an.Ident(b.Name()) == "delete" && len(x.Common().Args) > 0 {
 			addr = x.Common().Args[0]
 		} else {
 			return nil, false
